@@ -165,6 +165,7 @@ func stressRound(r *ev.Run, seed int64, round int) {
 		_ = sw.oc.ExceedStoreLimit(warm)
 	}
 	const workers = 8
+	t0 := time.Now()
 	calls := r.Pick(250, 600)
 	var genMu sync.Mutex // the generator shares one PRNG and the world's region list
 	var wg sync.WaitGroup
@@ -304,6 +305,11 @@ func stressRound(r *ev.Run, seed int64, round int) {
 			r.Eval(1)
 			r.Distinct("stress|" + mode + "|" + opShape(t.op) + "|" + sname(s))
 		}
+	}
+	if time.Since(t0) > 5*time.Minute {
+		// operator records live 10 minutes of wall clock: on a machine this slow their absence proves nothing
+		r.Count("skipped_record_check_slow_machine", 1)
+		ended = nil
 	}
 	for rid, n := range ended {
 		if running[rid] != nil || n == 0 {
